@@ -2764,6 +2764,39 @@ class StateEngine(object):
 
                 branches = state.get("Branches", [])
                 length = len(branches)
+
+                """
+                A Parallel state with no branches has nothing to wait for, so
+                (like a Map state over an empty array) its result is an empty
+                array. Without this no branch event would ever be published
+                and the execution would remain RUNNING for ever.
+                """
+                if length == 0:
+                    del context_state["Branch"][-1]
+                    if len(context_state["Branch"]) == 0:
+                        del context_state["Branch"]
+
+                    result = evaluate_payload_template(
+                        [], context, state.get("ResultSelector")
+                    )
+
+                    # Parallel and Map states apply ResultPath to "raw input"
+                    event["data"] = merge_result(data, context, result, state)
+
+                    if state.get("End"):
+                        handle_terminal_state(state_type, event, id)
+                        if id in self.event_dispatcher.unacknowledged_messages:
+                            self.event_dispatcher.acknowledge(id)
+                    else:
+                        error_type, error_message = self.change_state(
+                            state_machine, state_type, state.get("Next"), event
+                        )
+                        if error_type:
+                            handle_error(state, error_type, error_message)
+
+                        self.event_dispatcher.acknowledge(id)
+                    return
+
                 for index, branch in enumerate(branches):
                     event["data"] = parameters
                     branch_info = {
